@@ -43,7 +43,8 @@ def run(ctx):
         from rules import lib_when as _lw
         if (ctx.guard(lambda: _lw.check_one_node(ctx, fb, ron)) or 0) < 2:
             ctx.guard(lambda: ctx.broken('R-ONENODE: no StaticCombinator / SingleCombinator instantiation found'))
-        from rules import lib_when as _lw2
+        from rules import lib_when as _lw2, lib_handoff as _lh
+        ctx.guard(lambda: _lh.check_handoff_helpers(ctx, fb, rho))
         if (ctx.guard(lambda: _lw2.check_handoff_loops(ctx, fb, rho)) or 0) < 1:
             ctx.guard(lambda: ctx.broken('R-HANDOFF: no registration loop of a When* combinator found'))
         ctx.guard(lambda: lib_when.check_policy_forward(ctx, fb, rpf, r'^yaclib::(WhenAll|Join)$', False))
